@@ -32,6 +32,7 @@ PROPS = {
         explanation="C18.step_refines lifted to every call pattern (pattern_independent), output_eq_merge, is_interleaving, sorted_merge, reset_restarts; correspondence ties Mixer.Mx to container/iterable/mixer.go",
     ),
     "C15": dict(
+        generated=True,
         lean=["GolibsVerif.Props.C15"],
         seq=[dict(comp="xbin", args=["-focus", "C15"], stateless=True, decisive=lambda d: d["op"].startswith("mon C15"), ignore=lambda d: d["op"].startswith("mon C16") or d["op"].startswith("ub ") or d["op"].startswith("uu ") or d["op"].startswith("uf "))],
         rule="cases = groups of codec calls: MarshalUint for all 16-bit values, all 2^b-1/2^b/2^b+1 (b<64) with every buffer length 0..size+1, random 64-bit values; fixed widths (all bytes, random 16/32/64-bit, every short buffer); byte strings of lengths 0..40 and around 127/128, 16383/16384 (thorough: 2^21) with destination lengths around the predicted size; ObjectsWriter vs Marshal; random concatenations of 1..8 items decoded back; non-trivial = value/length on a 7-bit group boundary +-1; distinct counted per case group (each group contains thousands of distinct inputs, see op_kinds)",
@@ -40,11 +41,21 @@ PROPS = {
         explanation="C15.item_roundtrip / concat_decodes / writer_eq_marshal / uint_size_eq_written proved against the REGENERATED size function; correspondence + Go-side monitors tie Xbin.* to xbinary.go",
     ),
     "C16": dict(
+        generated=True,
         lean=["GolibsVerif.Props.C16"],
         seq=[dict(comp="xbin", args=["-focus", "C16"], stateless=True, decisive=lambda d: d["op"].startswith("mon C16") or "impl=panic" in d["detail"], ignore=lambda d: d["op"].startswith("mon C15"))],
         rule="cases = groups of Unmarshal calls on arbitrary bytes: every input of <= 2 bytes (quick: thinned), 3-4 byte inputs over {00,01,02,03,7f,80,81,ff}, length prefixes within +-12 of 2^31, 2^32, 2^62, 2^63, 2^64 followed by 0..20 body bytes, over-long varints of 9..14 continuation bytes, truncated and bit-flipped valid encodings; non-trivial = input that is not a valid encoding; every call runs under recover",
         assumptions=["cap(buf) = len(buf) for the buffers handed to the decoders"],
         trusted=["modelled, not verified: Go slice-expression bounds checks and int(uint64) conversion (two's complement)"],
         explanation="C16.total / in_bounds proved for every byte list of any length; C16.total_fails_legacy is the kernel-checked witness that the pre-repair length test panics",
+    ),
+    "C19": dict(
+        generated=True,
+        lean=["GolibsVerif.Props.C19"],
+        seq=[dict(comp="errs", stateless=True, decisive=lambda d: d["op"].startswith("mon C19"))],
+        rule="cases = calls of Is/GRPCStatusCode/GRPCWrap/ExtractObject/FromGRPCError on errors built from recipes: 12 classes x wrap depth 0..3 (thorough 4) x embedded object at every position (or none) x message texts incl. JSON, colons, % verbs, unicode and the marker's neighbours (ESC, 'json', ESC+'jso', 'son'+ESC) x every target class; all 17 codes; status/plain bases outside the hypothesis for model/code agreement; non-trivial = wrap depth >= 1 or an embedded object present; distinct by op text",
+        assumptions=["wrapping texts do not contain the complete embed marker ESC+'json'", "chains are single-%w (linear) chains"],
+        trusted=["modelled, not verified: errors.Is/As, fmt.Errorf %w, grpc status.Code/FromError/Error (v1.55), strings.Split, encoding/json", "class list, both tables and the marker are regenerated from errors.go / grpc.go by harness/cmd/extract"],
+        explanation="C19.tables_consistent/keys_nodup/no_unknown_code by `decide` on the REGENERATED tables; is_after_wrap/no other class/order independence/idempotence/extract for every chain and every map order derived from them",
     ),
 }
